@@ -62,3 +62,58 @@ Theorem C20_resolved_at_most_once : forall fuel S D opn inputs root or tor data 
   request fuel S D opn inputs root or tor = RDone data s -> NoDup (map c_path (st_calls s)).
 Proof. exact request_calls_nodup. Qed.
 Print Assumptions C20_resolved_at_most_once.
+
+(* "... and exactly once unless an earlier failure already nulled the enclosing object": in a
+   completed request every object value that survives in the response data (the root object, and
+   recursively every object under a field or a list item that was not replaced by null) has had,
+   for each of its response keys that names a field of its runtime type, an invocation with that
+   key's path, the runtime type as parent, the object's source -- the root value at the top
+   level --, the field's name, the coerced arguments and all the merged occurrences, and no other
+   invocation has that path (PCallG ... (called_once s)); keys selecting __typename hold the
+   runtime type's name and keys naming no field are absent.  d is exactly that covered tree. *)
+From GQL Require Import Exec.Conform Proofs.ExecCoverage Proofs.ExecSource.
+Theorem C20_resolved_exactly_once : forall fuel S D opn inputs root or tor d s,
+  request fuel S D opn inputs root or tor = RDone (Some d) s ->
+  exists op rt vars g fs,
+    get_operation D opn = Some op /\ root_type S op = Some rt /\
+    get_variable_values fuel S (o_vars op) inputs = Some (inl vars) /\
+    (exists v, collect fuel S D vars rt (o_sel op) [] [] = Some (g, v)) /\
+    let E := {| en_S := S; en_D := D; en_vars := vars; en_or := or; en_tor := tor;
+                en_serial := match o_kind op with OpMutation => true | _ => false end |} in
+    PCallG E (called_once s) rt root [] g fs /\ d = to_resp (QObj fs).
+Proof. exact request_calls_exactly_once. Qed.
+Print Assumptions C20_resolved_exactly_once.
+
+(* "its source is the value its parent resolved to (the individual element under a list, the
+   request's root value at the top level)": for EVERY invocation of a request, also inside
+   subtrees nulled later and whether or not data itself was nulled, the path is p ++ [k] and the
+   source is the root value when p = [], and otherwise the value reached from the forced outcome
+   of the resolver of the enclosing field (q ++ [k']) by descending through the list indices
+   between that field and p. *)
+Theorem C20_sources_accurate : forall fuel S D opn inputs root or tor data s,
+  request fuel S D opn inputs root or tor = RDone data s ->
+  exists op vars,
+    get_operation D opn = Some op /\
+    get_variable_values fuel S (o_vars op) inputs = Some (inl vars) /\
+    let E := {| en_S := S; en_D := D; en_vars := vars; en_or := or; en_tor := tor;
+                en_serial := match o_kind op with OpMutation => true | _ => false end |} in
+    Forall (src_ok E root) (st_calls s).
+Proof. exact request_sources. Qed.
+Print Assumptions C20_sources_accurate.
+
+Theorem C20_top_level_source_is_root : forall E root src, obj_at E root [] src -> src = root.
+Proof. exact obj_at_root. Qed.
+Print Assumptions C20_top_level_source_is_root.
+
+(* not vacuous: the request of Proofs/ExecPaths.v (a deferred list of two objects, an aliased
+   second occurrence, one deferred failing field) completes with data; its five invocations have
+   the root, the first and the second list element as sources. *)
+Example C20_nonvacuous :
+  exists d s,
+    request 10 ex_schema ex_doc None [] (RObj 0%N "Q") ex_oracle (fun _ => Some "Q") = RDone (Some d) s /\
+    map (fun c => (c_path c, c_source c)) (st_calls s) =
+      [([PKey "l"], RObj 0%N "Q");
+       ([PKey "l"; PIdx 0%N; PKey "x"], RObj 1%N "Q"); ([PKey "l"; PIdx 0%N; PKey "a"], RObj 1%N "Q");
+       ([PKey "l"; PIdx 1%N; PKey "x"], RObj 2%N "Q"); ([PKey "l"; PIdx 1%N; PKey "a"], RObj 2%N "Q")] /\
+    descend (RList [RObj 1%N "Q"; RObj 2%N "Q"]) [1%N] = Some (RObj 2%N "Q").
+Proof. eexists. eexists. split; [vm_compute; reflexivity|split; reflexivity]. Qed.
